@@ -6,7 +6,7 @@ from ..runner import Case, Property
 
 class C04(Property):
     id = "C04"
-    lean_module = "RosuModel.Props.C04All"   # imports Props/C04Slider.lean, Props/C04Timing.lean (which import Props/C04.lean), Props/C04File.lean, Props/C04Toy.lean and Props/C04Decoded.lean; all in namespace Rosu.C04
+    lean_module = "RosuModel.Props.C04All"   # imports Props/C04Slider.lean, Props/C04Timing.lean (which import Props/C04.lean), Props/C04File.lean, Props/C04Toy.lean, Props/C04Decoded.lean and Props/C04Ieee.lean; all in namespace Rosu.C04
     theorem_modules = ['RosuModel.Props.C04All', 'RosuModel.Props.C04Ieee']   # files whose top-level theorems are all audited
     namespace = "Rosu.C04"
     design_ref = "5.4"
@@ -24,12 +24,17 @@ class C04(Property):
                          "decoded_records_representable", "decoded_records_representable_of_limitRep", "record_lines_accepted_decoded",
                          "record_lines_accepted_decoded_metadata_colours", "record_blocks_accepted_decoded", "record_blocks_accepted_and_recovered_decoded",
                          "f16_decoded_witness", "constFacts_of_check", "decoded_hypotheses_satisfiable", "decodedSample_decodes", "decodedSample_finishes", "decodedSample_floatsRep",
-                         "decodedSample_noDoubleSlash", "decodedSample_encodes"]
+                         "decodedSample_noDoubleSlash", "decodedSample_encodes",
+                         # Props/C04Ieee.lean: ConstFacts proved for the driver's Float / Float32 (decide +kernel), the Decoded invariant with no hypothesis about numbers
+                         "constFactsB_float", "constFacts_float", "parser_calls_keep_decoded_inv_float", "decoded_inv_float", "decoded_map_inv_float",
+                         "decoded_records_representable_float"]
     partial_theorems = {
         "record_lines_accepted_editor / _difficulty / _general / _events, record_blocks_accepted_and_recovered":
             "law-dependent: proved for every number codec satisfying CodecLaws (+ IntPrintLaw for AudioLeadIn), shown satisfiable by Lemmas/ToyCodec.lean; CodecLaws is now also a theorem "
-            "for the model's IEEE codec (C02: parseBits_printBits_f64/_f32, printBits_clean, codecLaws_float(32) under the bit-cast hypothesis FloatBitsLaw about Lean's opaque Float); IntPrintLaw "
-            "likewise (C02: printBits_intBits_f64, intPrintLaw_float under FloatOfIntLaw). Not proved: that Rust's Display/FromStr equal the model codec (tested by lib/codecgen.py). record_lines_accepted_metadata / _colours, version_line_parses, encode_shape, lines_dispatched need no law",
+            "for the model's IEEE codec (C02: parseBits_printBits_f64/_f32, printBits_clean) and, since Lean 4.33's Float is a structure over the logical model Float.Model, for the driver's Float / Float32 "
+            "instances with no runtime hypothesis (C02.codecLaws_float_ieee, C02.codecLaws_float32_ieee; the former bit-cast hypotheses are the theorems C02.floatBitsLaw / C02.float32BitsLaw); IntPrintLaw "
+            "likewise (C02: printBits_intBits_f64, C02.intPrintLaw_float_ieee via C02.floatOfIntLaw). The hypotheses are thus theorems for Float / Float32 and the statements for the running instance are "
+            "obtained by instantiation (no `_float` corollary of these acceptance theorems is stated). Not proved: that Rust's Display/FromStr equal the model codec (tested by lib/codecgen.py). record_lines_accepted_metadata / _colours, version_line_parses, encode_shape, lines_dispatched need no law",
         "record_lines_accepted_<section> / record_blocks_accepted_and_recovered": "stated for section records that are representable (Rt*.Rep*: self-trimmed single-line texts, file names "
             "without `//`, backslash (and, for the background, comma / outer quotes), integers within ±(2^31−1), floats representable by the codec within the parse limit and inside the field's "
             "clamp, colour components ≤ 255, custom colour names without `:` / `//` / leading `Combo`, pairwise distinct). For DECODED maps these assumptions are discharged by the "
@@ -44,16 +49,18 @@ class C04(Property):
             "the background has no comma and no outer quote; colour components ≤ 255 with alpha 255; custom colour names are their own trim, without `:`, line feed, `//` (parse_colors strips "
             "comments before splitting — contrary to the expectation that `x//y` could be a decoded name) or leading `Combo`, pairwise distinct. NO codec law is used (so this also holds "
             "of the IEEE instance); the only hypothesis is ConstFacts — closed facts about the decoder's own constants (1, 1.4, 5, 0.7, 0.4, 3.6, 0.5, 8 are within the parse limit, `<` is "
-            "irreflexive on the clamp bounds and lo < hi is not reversed, 0 = i32-as-f64 0): true of IEEE floats by evaluation but not provable in the kernel (Lean's Float is opaque): the boolean form constFactsB is "
-            "evaluated to true on the driver's Float/Float32 instances by `#guard` when Props/C04Decoded.lean is built (a test, not a proof; constFacts_of_check links it to ConstFacts); "
-            "instance on the toy scalar by `decide`. decoded_metadata_colours_representable needs no hypothesis at all",
+            "irreflexive on the clamp bounds and lo < hi is not reversed, 0 = i32-as-f64 0). ConstFacts is now a THEOREM for the driver's instances (Props/C04Ieee.lean): in Lean 4.33 Float / Float32 literals, "
+            "comparisons and Float.ofInt reduce in the kernel, so the boolean form constFactsB evaluates by `decide +kernel` (constFactsB_float, zero_eq_ofInt_float) and constFacts_of_check gives "
+            "constFacts_float : ConstFacts Float Float32 (Props/C04Decoded.lean could only `#guard` it, a test). Hence parser_calls_keep_decoded_inv_float, decoded_inv_float, decoded_map_inv_float: every byte "
+            "string the running decoder accepts leaves it in a state satisfying DecInv — no hypothesis about numbers left; decoded_records_representable_float keeps only the codec side (FloatsRep) and the "
+            "F16 exclusion. Instance on the toy scalar by `decide`. decoded_metadata_colours_representable needs no hypothesis at all",
         "decoded_records_representable / record_lines_accepted_decoded / record_blocks_accepted_decoded / record_blocks_accepted_and_recovered_decoded":
             "every clause of every Rep* predicate is either derived from DecInv or isolated as a residual hypothesis: (a) FloatsRep — the codec represents the map's (finite, in-limit) float "
             "values: a codec law, implied by the single law LimitRep (`everything within the parse limit is representable`, a theorem for the toy codec); (b) NoDoubleSlash — neither file "
             "name contains `//` (finding F16: `AudioFilename: a\\\\b`, `a/\\b`, background `a\\\\\\\\b` decode to `a//b`; f16_decoded_witness; replayed on the real code: `rt` FAILs with "
             "explained=file-name-contains-double-slash, `lines` is OK). ACCEPTANCE does not need (b): record_lines_accepted_decoded (all six sections, every line a record line accepted in any "
             "state) and record_blocks_accepted_decoded (file level: the re-read lines are exactly the blocks' lines and each block reaches exactly its parser) assume only the codec laws, "
-            "ConstFacts and FloatsRep — a name with `//` is cut when read back but its line is still an accepted AudioFilename / background record (Lemmas/DecodedInvAccept.lean). "
+            "ConstFacts (a theorem for Float / Float32: constFacts_float) and FloatsRep — a name with `//` is cut when read back but its line is still an accepted AudioFilename / background record (Lemmas/DecodedInvAccept.lean). "
             "record_blocks_accepted_and_recovered_decoded additionally asserts the record fields come back and therefore keeps (b). Non-vacuity: a hostile 19-line file is decoded, finalised, "
             "encoded and read back in the kernel on the toy codec (decodedSample_*). The list blocks still enter by their shape (ListBlockShape), as before",
         "hitobject_lines_accepted_partial": "law-dependent; covers circles, spinners and hold notes only (line is LF-free, a record line, accepted in any state, same kind of object comes back); "
@@ -76,7 +83,7 @@ class C04(Property):
             "with −100/v representable and within the beat-length limits; signature numerators in 1..2^31−1; custom banks ≤ 2^31−1. For a DECODED map the clauses about its own control "
             "points hold by construction: decoded_control_points_in_limits proves (no law, so also of the IEEE instance) that every decoded map's control points are strictly sorted, with "
             "times within the limit and not NaN, numerators in 1..2^31−1 and custom banks within ±(2^31−1); C12.clamps gives the clamp ranges of beat lengths and velocities under the clamp "
-            "laws; that the codec represents those finite values, and that −100/v stays within the beat-length limits for v in the clamp range, are not theorems here. The clause a decoded map can violate is the one about sample points AFTER collect_samples: they sit at computed times (start+duration of spinners/holds/sliders, node "
+            "laws (for IEEE doubles with no hypothesis: C12.clamps_float, C12.clamps_ordinary_float); that the codec represents those finite values, and that −100/v stays within the beat-length limits for v in the clamp range, are not theorems here. The clause a decoded map can violate is the one about sample points AFTER collect_samples: they sit at computed times (start+duration of spinners/holds/sliders, node "
             "times from slider_events) which may be non-finite or beyond the limit; then the line is rejected. Not assumed away: the implementation-level `lines` oracle checks every "
             "line of every encoding. timing_block_lines (shape and provenance of every line) needs no law",
         "encoded_file_accepted / encoded_file_sections_accepted":
@@ -100,7 +107,7 @@ class C04(Property):
     level_text = ("Lean 4 theorems over the encoder and decoder models: the encoded text is the version line followed by the eight blocks in canonical order, each introduced by a blank line and "
                   "starting with the header its decoder recognises (encode_shape, headers_recognised); the version line parses back to the map's version (version_line_parses); each of the six "
                   "record blocks is its header plus an explicit list of LF-terminated record lines (record_blocks_are_lines), every one of which is neither a header nor skipped and is accepted "
-                  "by its section's parser in any state (record_lines_accepted_<section>; sections with floats: for every lawful number codec — the model's IEEE codec is proved lawful at the bit level, C02); reading the text back yields exactly its own "
+                  "by its section's parser in any state (record_lines_accepted_<section>; sections with floats: for every lawful number codec — the model's IEEE codec is proved lawful at the bit level and the driver's Float / Float32 instances satisfy the codec laws with no hypothesis, C02.codecLaws_float_ieee / codecLaws_float32_ieee / intPrintLaw_float_ieee); reading the text back yields exactly its own "
                   "end-trimmed lines (encoded_text_lines, via C10) and the framing driver hands each block's lines, in order, to exactly that section's parser (lines_dispatched, via C05); "
                   "file level for the record blocks: record_blocks_accepted_and_recovered; hit-object lines of all four kinds (circles, sliders incl. the whole path-string grammar over the decidable class RepPath, "
                   "spinners, hold notes): hitobject_lines_accepted, slider_line_accepted. "
@@ -112,7 +119,7 @@ class C04(Property):
                   "the encoded text is the version line plus the eight blocks, and decoding it (bytes, reader, framing) hands every non-blank non-header line of every block to its own section's "
                   "parser, in order, and every call returns Ok; as many hit objects / breaks / colours are pushed as written (non-vacuity: C04.toyMap, encoding evaluated). "
                   "That a decoded map satisfies RepMap is not a theorem (false in general: F17, F18, F20, non-finite computed sample-point times). "
-                  "For DECODED maps the representability assumptions of the six record sections are discharged: decoded_inv (every byte string decodes to a state satisfying the `Decoded` invariant, no codec law), "
+                  "For DECODED maps the representability assumptions of the six record sections are discharged: decoded_inv (every byte string decodes to a state satisfying the `Decoded` invariant, no codec law; for the driver's Float / Float32 with no hypothesis at all: decoded_inv_float, from constFacts_float proved by `decide +kernel`), "
                   "record_lines_accepted_decoded / record_blocks_accepted_decoded (acceptance for every decoded map under the codec laws and representability of its float values only — not even the F16 exclusion). "
                   "The encoder model is compared character for character with Beatmap::encode_to_string on every generated and bundled map; the property itself is evaluated on the "
                   "real code for every line of every encoding (oracle `lines`).")
@@ -120,8 +127,10 @@ class C04(Property):
     trusted_base = [
         "Lean 4.33.0 kernel; axioms ⊆ {propext, Classical.choice, Quot.sound} per #print axioms",
         "hand-written Model/Encode.lean (+ decode model) tied to /repo by the `enc` differential: identical text on every case of this run",
-        "Rust Display for f32/f64/i32/u8 (model codec validated against Rust by lib/codecgen.py on >10^6 values; the model codec itself is proved to satisfy CodecLaws in Props/C02Codec.lean "
-        "up to the runtime hypotheses FloatBitsLaw / FloatOfIntLaw)",
+        "Rust Display for f32/f64/i32/u8 (model codec validated against Rust by lib/codecgen.py on >10^6 values; the model codec itself is proved to satisfy CodecLaws in Props/C02Codec.lean, "
+        "for the driver's Float / Float32 with no runtime hypothesis: Props/C02CodecIeee.lean — FloatBitsLaw / FloatOfIntLaw are theorems of Lean 4.33's logical float model)",
+        "a theorem about Float / Float32 (constFacts_float, decoded_inv_float) is a theorem about Lean's logical model Float.Model; that the compiled @[extern] C operations agree with it is part of Lean's own "
+        "trusted code base and is compared with Rust bit for bit by the codec differential (fop64 / fop32, casts) and by every whole-model request of this run",
     ]
     assumptions = ["maps are obtained by decoding (the property's domain); edited maps are C03's domain"]
     nontrivial_rule = "decoded maps from the C01/C02 generators incl. non-chronological and hostile inputs; non-trivial = encoding has more than 40 lines"
